@@ -7,13 +7,23 @@ pub struct Prop {
     pub replay: fn(&Ctx, &Value) -> Result<Vec<Finding>, String>,
 }
 
-pub mod c04;
+macro_rules! props {
+    ($($id:literal => $m:ident),* $(,)?) => {
+        $(pub mod $m;)*
+        pub fn lookup(id: &str) -> Option<Prop> {
+            Some(match id {
+                $($id => Prop { run: $m::run, replay: $m::replay },)*
+                _ => return None,
+            })
+        }
+    };
+}
 
-pub fn lookup(id: &str) -> Option<Prop> {
-    Some(match id {
-        "C04" => Prop { run: c04::run, replay: c04::replay },
-        _ => return None,
-    })
+props! {
+    "C01" => c01,
+    "C04" => c04,
+    "C08" => c08,
+    "C10" => c10,
 }
 
 pub fn iso_space(_prop: &str, _mode: &str, _tier: Tier) -> Option<Box<dyn IsoSpace>> {
